@@ -623,4 +623,63 @@ theorem century_mem (items : List FItem) (h : Piece.fld .century ∈ piecesOfIte
         cases dir <;> simp [piecesOfItem, piecesOf] at h <;> simp [Dir.fields]
       · exact Or.inr (ih h)
 
+/-! ### strptime: which regex groups a format names -/
+
+/-- The specification field a property belongs to. -/
+def sf : Fld → SField
+  | .century => .year | .yearOfCentury => .year | .monthOfYear => .month | .dayOfMonth => .day
+  | .dayOfYear => .yday | .hourOfDay => .hour | .minuteOfHour => .minute | .secondOfMinute => .second
+  | .tzSign => .zone | .tzHourAbs => .zone | .tzMinuteAbs => .zone | .unix => .unix
+
+theorem fldsOf_append (a b : List Piece) : fldsOf (a ++ b) = fldsOf a ++ fldsOf b := by
+  induction a with
+  | nil => rfl
+  | cons x xs ih => cases x <;> simp [fldsOf, ih]
+
+theorem mem_fldsOf_dir (f : Fld) (dir : Dir) : f ∈ fldsOf (piecesOf dir) ↔ sf f ∈ dir.fields := by
+  cases f <;> cases dir <;> decide
+
+theorem nodup_fldsOf_dir (dir : Dir) : (fldsOf (piecesOf dir)).Nodup := by cases dir <;> decide
+
+theorem mem_fldsOf_items (f : Fld) (items : List FItem) :
+    f ∈ fldsOf (piecesOfItems items) ↔ sf f ∈ fieldsOf items := by
+  induction items with
+  | nil => simp [piecesOfItems, fldsOf, fieldsOf]
+  | cons it rest ih =>
+    unfold piecesOfItems at ih ⊢
+    rw [List.flatMap_cons, fldsOf_append, List.mem_append, ih]
+    cases it with
+    | lit ch => simp [piecesOfItem, fldsOf, fieldsOf]
+    | conv dir => simp only [piecesOfItem, fieldsOf, List.mem_append, mem_fldsOf_dir]
+
+theorem nodup_fldsOf_items (items : List FItem) (h : (fieldsOf items).Nodup) :
+    (fldsOf (piecesOfItems items)).Nodup := by
+  induction items with
+  | nil => simp [piecesOfItems, fldsOf]
+  | cons it rest ih =>
+    cases it with
+    | lit ch =>
+      have := ih h
+      simpa [piecesOfItems, piecesOfItem, fldsOf, fldsOf_append] using this
+    | conv dir =>
+      simp only [fieldsOf] at h
+      rw [List.nodup_append] at h
+      obtain ⟨_, h2, h3⟩ := h
+      have e : fldsOf (piecesOfItems (.conv dir :: rest)) =
+          fldsOf (piecesOf dir) ++ fldsOf (piecesOfItems rest) := by
+        simp [piecesOfItems, piecesOfItem, fldsOf_append]
+      rw [e, List.nodup_append]
+      refine ⟨nodup_fldsOf_dir dir, ih h2, ?_⟩
+      intro a ha b hb hab
+      subst hab
+      exact h3 (sf a) ((mem_fldsOf_dir a dir).mp ha) (sf a) ((mem_fldsOf_items a rest).mp hb) rfl
+
+theorem hasDup_false (fs : List Fld) (h : fs.Nodup) : hasDup fs = false := by
+  induction fs with
+  | nil => rfl
+  | cons f rest ih =>
+    rw [List.nodup_cons] at h
+    simp only [hasDup, ih h.2, Bool.or_false, List.contains_eq_mem, decide_eq_false_iff_not]
+    exact h.1
+
 end IsoDT.Lemmas.Strf
